@@ -68,12 +68,9 @@ Fixpoint on_chain (ends : list Endorsement) : list (Z * Z) :=
   | e :: r => match e_bop e with Some h => (e_pid e, h) :: on_chain r | None => on_chain r end
   end.
 
-Fixpoint list_min (l : list Z) (d : Z) : Z :=
-  match l with [] => d | x :: r => Z.min x (list_min r x) end.
-
 (** lowest publication height; -1 when nothing counts *)
 Definition spec_best (v : list (Z * Z)) : Z :=
-  match v with [] => -1 | (_, h) :: r => list_min (map snd v) h end.
+  match v with [] => -1 | (_, h) :: r => fold_right Z.min h (map snd r) end.
 
 Definition spec_weight (p : Params) (rel : Z) : Z :=
   if (0 <=? rel) && (rel <? Z.of_nat (length (p_table p))) then nth (Z.to_nat rel) (p_table p) 0 else 0.
@@ -98,6 +95,14 @@ Definition spec_paid (p : Params) (b : Block) (prevs : list Block) (pid : Z) : Z
   let br := spec_block_reward p (b_height b) s (spec_difficulty p prevs) in
   zsum (map (fun ph => spec_share br s (spec_weight p (snd ph - spec_best v)))
             (filter (fun ph => fst ph =? pid) v)).
+
+(** the payout map: shares inserted per endorsement, equal payout infos added
+    up in uint64_t, keys kept sorted *)
+Definition spec_payout_map (p : Params) (b : Block) (prevs : list Block) : list (Z * Z) :=
+  let v := on_chain (b_ends b) in
+  let s := spec_score p (b_ends b) in
+  let br := spec_block_reward p (b_height b) s (spec_difficulty p prevs) in
+  fold_left (fun m ph => map_add (fst ph) (low64 (spec_share br s (spec_weight p (snd ph - spec_best v)))) m) v [].
 
 (** who is paid *)
 Definition spec_payees (b : Block) : list Z := map fst (on_chain (b_ends b)).
